@@ -624,8 +624,8 @@ func parseHrdParameters(r *bits.EBSPReader,
 
 func parseSubLayerHrdParameters(r *bits.EBSPReader,
 	cpbCntMinus1 uint8, subPicHrdParamsPresentFlag bool) []SubLayerHrdParameters {
-	slhp := make([]SubLayerHrdParameters, cpbCntMinus1+1)
-	for i := uint8(0); i <= cpbCntMinus1; i++ {
+	slhp := make([]SubLayerHrdParameters, int(cpbCntMinus1)+1)
+	for i := 0; i <= int(cpbCntMinus1); i++ {
 		// values shall be in the range of 0 to 2^32 − 2, inclusive
 		slhp[i].BitRateValueMinus1 = uint32(r.ReadExpGolomb())
 		slhp[i].CpbSizeValueMinus1 = uint32(r.ReadExpGolomb())
@@ -698,6 +698,7 @@ func parseShortTermRPS(r *bits.EBSPReader, idx, numSTRefPicSets byte, sps *SPS) 
 		}
 		if deltaIdx > idx {
 			r.SetError(fmt.Errorf("deltaIdx > idx in parseShortTermRPS"))
+			return stps
 		}
 		deltaRps := 1 - 2*int(r.Read(1))       // delta_rps_sign
 		deltaRps *= int(r.ReadExpGolomb()) + 1 // abs_delta_rps_minus1
@@ -862,13 +863,13 @@ func parseSPSSccExtension(r *bits.EBSPReader, ChromaFormatIDC,
 			}
 			ext.PalettePredictorInitializer = make([][]uint, numComps)
 			// Fill luma
-			for i := uint(0); i <= ext.NumPalettePredictorInitializersMinus1; i++ {
+			for i := uint(0); i <= ext.NumPalettePredictorInitializersMinus1 && r.AccError() == nil; i++ {
 				ext.PalettePredictorInitializer[0] =
 					append(ext.PalettePredictorInitializer[0], r.Read(int(BitDepthLumaMinus8+8)))
 			}
 			// Fill chroma if any
 			for comp := 1; comp < numComps; comp++ {
-				for i := uint(0); i <= ext.NumPalettePredictorInitializersMinus1; i++ {
+				for i := uint(0); i <= ext.NumPalettePredictorInitializersMinus1 && r.AccError() == nil; i++ {
 					ext.PalettePredictorInitializer[comp] =
 						append(ext.PalettePredictorInitializer[comp], r.Read(int(BitDepthChromaMinus8+8)))
 				}
